@@ -116,6 +116,10 @@ func genC15Request(r *Rng) c15req {
 	rq.j, rq.f, rq.q = rec(0), rec(1), rec(2)
 	io := IOSpec{}
 	io.Method = Pick(r, []string{"GET", "HEAD", "POST", "POST", "PUT", "PATCH", "DELETE", "OPTIONS"})
+	if r.P(0.12) {
+		// any other method token is a method with a body as far as the documented dispatch goes ("GET and HEAD read the query")
+		io.Method = Pick(r, []string{"QUERY", "PROPFIND", "REPORT", "TRACE", "CONNECT", "SEARCH", "LINK", "get", "Post", "X-CUSTOM"})
+	}
 	base := Pick(r, []string{"", "application/json", "application/json", "application/x-www-form-urlencoded", "application/x-www-form-urlencoded", "text/plain", "multipart/form-data"})
 	if r.P(0.12) {
 		// other media types, among them ones that merely start like the two that select a body
